@@ -10,6 +10,9 @@ J = 'src/js_identifiers.rs'
 S = 'src/sourceview.rs'
 
 MUTANTS = [
+    ('sourceview::SourceView::get_original_function_name', r'verif_take_peekable\(self\.rev_token_iter\(token\), 128\)', 'verif_take_peekable(self.rev_token_iter(token), 129)'),
+    ('sourceview::SourceView::get_original_function_name', r'verif_opt_str_eq\(item\.1, "function"\)', 'verif_opt_str_eq(item.1, "functio")'),
+    ('sourceview::SourceView::get_original_function_name', r'return token\.get_name\(\)', 'return item.0.get_name()'),
     ('sourceview::RevTokenIter::next', r'new_offset -= c\.len_utf8\(\);', 'new_offset -= 1;'),
     ('sourceview::RevTokenIter::next', r'if idx >= chars_to_move \{', 'if idx > chars_to_move {'),
     ('sourceview::RevTokenIter::next', r'self\.source_line = None;', ''),
@@ -98,3 +101,19 @@ def build(u):
 
     guarded(u, 'sourceview::RevTokenIter::next', lambda: u.get_fn(S, 'next', impl=r"<'view, 'map> Iterator for RevTokenIter<'view, 'map>"), lambda f: prep_rti_next(f, u),
             wrap=lambda: ("impl<'view, 'map> RevTokenIter<'view, 'map> {", '}'))
+
+    # the pairing loop on top of the walker (take(128).peekable() behind an assumed contract stated over the walker's verified contract)
+    u.spec('funcname_walk.rs')
+    u.prelude('shim_takepeek.rs')
+
+    def prep_rev(f):
+        u.count('R-seq', f.rewrite(r"\(&'this self\b", "(&'this mut self", expect=1))
+    emit_method(u, S, r'SourceView\b', 'rev_token_iter', 'sourceview::SourceView::rev_token_iter', prep=prep_rev)
+
+    def prep_gofn(f):
+        expand_if_chain(f, u)
+        u.count('R-seq', f.rewrite(r'(?s)\(\s*&self\b', '(&mut self', expect=1))
+        n = f.rewrite(r'self\.rev_token_iter\(token\)\.take\(128\)\.peekable\(\)', 'verif_take_peekable(self.rev_token_iter(token), 128)', expect=1)
+        n += f.rewrite(r'\b([a-z_]+(?:\.\d)?) == Some\(([a-z_]+|"[a-z]*")\)', r'verif_opt_str_eq(\1, \2)', expect=2)
+        u.count('R-shim-call', n)
+    emit_method(u, S, r'SourceView\b', 'get_original_function_name', 'sourceview::SourceView::get_original_function_name', prep=prep_gofn)
